@@ -11,7 +11,7 @@ P = {
  "C04": ("invariant walker over the live Entry forest at the quiescent point after a clean Process (pointer identity, global visited set, Dir and rpc input/output) + expected-error oracle of the reference resolver + late-fault templates",
          "generated module sets (30 k quick / 400 k thorough), 13 late-fault templates and faults in the older of two revisions; every node reached is checked for name/key, parent pointer, single reachability, kind vs children/type/list attributes, choice children, leftover augments, recorded errors"),
  "C05": ("metamorphic monitor: R repetitions x P load-order permutations on fresh sets compared through a canonical dump; independent (file,line,column) order and duplicate check on every error list; byte comparison of repeated CLI runs",
-         "eleven tie/conflict shapes and generated sets with type errors and up to three injected faults (650 sets quick / 20 k thorough), 48 x <=6 executions per set (quick), 128 x <=24 (thorough); map iteration orders are sampled by repetition, not enumerated"),
+         "thirteen tie/conflict shapes (incl. rings of typedefs and groupings) and generated sets with type errors and up to three injected faults (650 sets quick / 20 k thorough), 48 x <=6 executions per set (quick), 128 x <=24 (thorough); map iteration orders are sampled by repetition, not enumerated"),
  "C06": ("reference-model monitor (reference expansion of uses with lexical binding) + sharing walker + independence monitor (with/without a module that changes one instance)",
          "30 k / 400 k generated sets with groupings at every scope, equal grouping names in different modules (twins sorting before and after), nested uses, childless directories, if-feature lists and extension statements; independence family (9 k / 150 k): one copy is changed by a deviation/augment or mutated through every exported slice and map, all other copies and the cached grouping must not move"),
  "C07": ("reference-model monitor (reference graft of augments to a fixpoint, expected errors) + offline checker over the hook trace of augment lookups and merges (exactly-once specification)",
